@@ -556,6 +556,8 @@ def judge_history(run, hr, val, key_prefix, info, shared_key=None):
         run.find(key_prefix + ":sampler_contract", "a drawn shot has zero probability / wrong count (oracle premise of the theorems violated by the implementation's sampler)", info)
     model_ok = all(bools[1:])
     spec_bad = [r for r, v in enumerate(verdicts) if v == 1]
+    if any(v == 2 for v in verdicts):
+        run.notes["inconclusive_spec_verdicts"] = run.notes.get("inconclusive_spec_verdicts", 0) + sum(1 for v in verdicts if v == 2)
     if spec_bad:
         ok = False
         if model_ok and shared_key is not None:
@@ -845,6 +847,79 @@ def part_symbols(run, rng, be, count):
         run.refuted.append("symbols_follow_gate_order")
 
 
+
+# ------------------------------------------------------------------ part F: results of repeated execution
+def repeated_circuit(crng, n):
+    """a state-vector circuit with a collapsing measurement: executed shot by shot, the result is a
+    MeasurementOutcomes built from the aggregated samples"""
+    from qibo import Circuit, gates
+    c = Circuit(n)
+    cq = crng.sample(range(n), crng.randint(1, min(2, n)))
+    c.add(gates.M(*cq, collapse=True))
+    for _ in range(crng.randint(0, 2)):
+        c.add(gates.X(crng.randrange(n)))
+    regs = random_registers(crng, n)
+    for reg in regs:
+        c.add(gates.M(*reg))
+    return c, regs, cq
+
+
+def view_terms(r, measurements, regs, key_prefix, run, info, report_shape=True):
+    """[(Coq op, Coq out)] for the eight sample/frequency views of result r; a view of the wrong
+    shape (e.g. a flat Counter where a dict of registers is expected) is reported directly"""
+    items = []
+    for kind in ("samples", "freqs"):
+        for b in (True, False):
+            for rg in (True, False):
+                v = r.samples(binary=b, registers=rg) if kind == "samples" else r.frequencies(binary=b, registers=rg)
+                if rg and (not isinstance(v, dict) or isinstance(v, collections.Counter)):
+                    if not report_shape:
+                        continue
+                    run.find(f"{key_prefix}:{'frequencies' if kind == 'freqs' else 'samples'}_registers_ignored",
+                             f"{kind}(binary={b}, registers=True) does not return one entry per register", dict(info, returned=repr(v)[:200]))
+                    continue
+                op = (f"Samples 0%nat {b2s(b)} {b2s(rg)} (@nil nat)" if kind == "samples"
+                      else f"Freqs 0%nat {b2s(b)} {b2s(rg)} (@nil (nat * nat))")
+                items.append((f"{kind}:{b}:{rg}", op, out_term(kind, b, rg, v, measurements)))
+    return items
+
+
+def part_repeated(run, rng, be, count):
+    items, meta = [], []
+    for i in range(count):
+        crng = random.Random(f"{run.seed}:repeated:{i}")
+        n = crng.randint(1, 3)
+        c, regs, cq = repeated_circuit(crng, n)
+        ints, j = dyadic_state(crng, n)
+        nshots = crng.randint(1, 6)
+        be.set_seed(crng.randrange(2 ** 31))
+        r = c(initial_state=np.array(ints, dtype=complex) / 2 ** j, nshots=nshots)
+        S = [int(x) for x in np.asarray(r.samples(binary=False)).tolist()]
+        info = {"part": "repeated", "case": i, "n": n, "collapse": f"M({','.join(map(str, cq))}, collapse=True)", "registers": regs,
+                "state_times_2^j": [str(a) for a in ints], "j": j, "nshots": nshots, "samples": S}
+        run.case({"repeated": info}, len(regs) > 1 or len(regs[0]) > 1)
+        if i == 0:
+            run.sample(info)
+        if len(S) != nshots:
+            run.find("repeated:nshots", "number of samples differs from nshots", info)
+        cfg = f"(mkcfg {n}%nat {nat_list_list(regs)})"
+        for label, op, out in view_terms(r, c.measurements, regs, "repeated", run, info):
+            items.append((f"repeated:case{i}:{label}", f"explainsb {cfg} (@nil Z) {nat_list(S)} ({op}) ({out})"))
+            meta.append((f"repeated:case{i}:{label}", info, label))
+    res, _ = run.coq_bools("repeated.v", HEADER, items, timeout=600)
+    if res is None:
+        run.find("repeated:coq-failed", "generated file did not compile", {}, concrete=False)
+        return
+    ok = True
+    for label, info, view in meta:
+        if not res[label]:
+            ok = False
+            run.find(f"repeated:view:{view}", "a view of a repeated-execution result is not the same data as its samples", info)
+    if ok and not any(f.key.startswith("repeated:") for f in run.findings):
+        run.oblige("test:repeated_execution_views", True, "test")
+    elif "repeated_execution_views_consistent" not in run.refuted:
+        run.refuted.append("repeated_execution_views_consistent")
+
 # ------------------------------------------------------------------ main
 RULE = ("probabilities: random n<=5, random duplicate-free ordered qubit lists (biased to unsorted), Gaussian-integer states with exact moduli / "
         "integer density matrices, through the backend function and through Circuit execution; non-trivial = list differs from range(n) and "
@@ -852,13 +927,15 @@ RULE = ("probabilities: random n<=5, random duplicate-free ordered qubit lists (
         "normalised states, 2..8 random accessor calls (samples/frequencies x binary x registers, probabilities) on one result with the "
         "implementation's draws fed to the model; non-trivial = >=3 different accessor kinds and more than one register or qubit.  "
         "collapse: M(*qubits, collapse=True) on unsorted/sorted lists mid-circuit followed by X/Y/Z/CNOT/CZ/SWAP and a final measurement, "
-        "every shot one case; direct collapse_state/collapse_density_matrix calls on integer data.")
+        "every shot one case; direct collapse_state/collapse_density_matrix calls on integer data.  repeated: state-vector circuits with a "
+        "collapsing measurement (shot-by-shot execution), the eight sample/frequency views of the MeasurementOutcomes judged by the Coq "
+        "specification explainsb against its own samples.")
 
 
 def budgets(tier):
     if tier == "thorough":
-        return {"probs": 480, "conv": 200, "views": 900, "collapse": 300, "direct": 240, "symbols": 60}
-    return {"probs": 150, "conv": 60, "views": 160, "collapse": 70, "direct": 60, "symbols": 20}
+        return {"probs": 480, "conv": 200, "views": 900, "collapse": 300, "direct": 240, "symbols": 60, "repeated": 120}
+    return {"probs": 150, "conv": 60, "views": 160, "collapse": 70, "direct": 60, "symbols": 20, "repeated": 30}
 
 
 def static_obligations(run, theory):
@@ -894,6 +971,7 @@ def main(run):
     part_collapse(run, rng, be, b["collapse"])
     part_collapse_direct(run, rng, be, b["direct"])
     part_symbols(run, rng, be, b["symbols"])
+    part_repeated(run, rng, be, b["repeated"])
     return run.finish(rule=RULE)
 
 
@@ -915,6 +993,9 @@ def replay(run, data):
         part_collapse_single(run, be, cases)
     elif part == "symbols":
         part_symbols_range(run, be, [i])
+    elif part == "repeated":
+        part_repeated(run, None, be, i + 1)
+        run.findings = [f for f in run.findings if f.key == data.get("key") and f.replay.get("case") == i]
     elif part in ("probs", "conv", "collapse_direct"):
         # these parts are cheap: re-run them completely with the recorded seed
         b = budgets(data.get("tier", "quick"))
